@@ -5,7 +5,9 @@ drv, cf, tf, k = sys.argv[1], sys.argv[2], sys.argv[3], int(sys.argv[4])
 c=list(map(int,open(cf).read().splitlines()[k].split())); t=list(map(int,open(tf).read().splitlines()[k].split()))
 sizes={0:3,1:3,2:2,3:3,4:3,5:3,6:5,7:2,8:3,9:3,10:1}
 evb=[3]; i=3
-for _ in range(c[2]): i+=sizes[c[i]]; evb.append(i)
+for _ in range(c[2]):
+    i+= (2+2*c[i+1]) if c[i]==11 else sizes[c[i]]
+    evb.append(i)
 tb=[1]; i=1
 def lst(w):
     global i
